@@ -449,3 +449,38 @@ def c01_mask_support(run):
             except Exception as e:  # noqa: BLE001
                 replay.update(native_error=repr(e))
             run.obligation(name, "refuted", backend="pyvc+z3", detail=bad, replay=replay, signature=f"p_next:mask-is-support:{alg}")
+
+
+def budget_obligation(run, pid):
+    """<pid>/cfg.CFG.agenda/default-budget (auxiliary): the fixed-point solvers give up silently after a default number of steps
+    per strongly connected block (`agenda(maxiter=...)`: every popped update counts, changed or not; `naive_bottom_up(timeout=...)`).
+    Assumption A4 of this property - 'the default budget suffices for the grammars in its domain' - was checked against the pinned
+    defaults (>= 100 000): a lower default withdraws that assumption (undecided unless the bounded layer finds a grammar that
+    shows it), a higher one is fine."""
+    import ast
+    name = f"{pid}/cfg.CFG.agenda/default-budget"
+    rel = "genlm/grammar/cfg.py"
+    vals = {}
+    for qual, arg in (("CFG.agenda", "maxiter"), ("CFG.naive_bottom_up", "timeout")):
+        try:
+            fn = source.find(rel, qual)
+        except KeyError:
+            continue
+        a = fn.args
+        pos = a.posonlyargs + a.args
+        defaults = dict(zip([x.arg for x in pos[len(pos) - len(a.defaults):]], a.defaults))
+        defaults.update({x.arg: d for x, d in zip(a.kwonlyargs, a.kw_defaults) if d is not None})
+        d = defaults.get(arg)
+        try:
+            vals[qual + "." + arg] = ast.literal_eval(d) if d is not None else None
+        except Exception:  # noqa: BLE001
+            vals[qual + "." + arg] = ast.unparse(d)
+    low = {k: v for k, v in vals.items() if not (isinstance(v, (int, float)) and v >= 100_000) and v is not None and ast is not None
+           and not (isinstance(v, str) and "inf" in v)}
+    if not vals:
+        run.obligation(name, "out-of-subset", role="auxiliary", detail="solvers not found")
+    elif low:
+        run.obligation(name, "refuted", role="auxiliary", backend="ast", detail=f"default step budget lowered: {low} (assumption A4 was checked for >= 100000)",
+                       replay=dict(replayed=False, defaults=vals), signature="agenda:default-budget")
+    else:
+        run.obligation(name, "proved", role="auxiliary", backend="ast", detail=f"default step budgets {vals} >= 100000")
